@@ -77,7 +77,60 @@ CORPUS = [
 ]
 
 
+def with_data_scenario(cfg, root):
+    """custom metadata stored *with the data* (`store_with_content_key`, what `put_metadata(..., store_with_data=True)` passes): the
+    dictionary semantics are those of ordinary metadata — per call, last value written wins, the result stays readable. Three
+    calls; (1,1) and (2,1) have the same result value (one content object), (1,2) another. Returns failures."""
+    w = sw.World(cfg, root=root)
+    be = w.be
+    fails = []
+    try:
+        for mid, (fn, arg, B) in enumerate([(1, 1, 9), (2, 1, 9), (1, 2, 10)], 1):
+            out = w.apply(["memoize", fn, arg, None, B, mid])
+            if out != "ok":
+                return [dict(clause="scenario-setup", step="memoize", got=out)]
+
+        def wmeta(fn, arg, key, val):
+            m = be.get_mementos([w.frh(fn, arg)])[0]
+            be.write_metadata(w.frh(fn, arg), key, val, store_with_content_key=m.content_key)
+
+        def rmeta(fn, arg, key):
+            b = be.read_metadata(w.frh(fn, arg), key)
+            return None if b is None else bytes(b)
+        steps = [("w", 1, 1, "", b"empty-key"), ("read", 1, 1), ("r", 1, 1, "", b"empty-key"), ("read", 2, 1),
+                 ("w", 1, 2, "log", b"log of (1,2)"), ("r", 1, 2, "log", b"log of (1,2)"), ("r", 1, 1, "log", None), ("read", 1, 2),
+                 ("w", 1, 1, "log", b"log of (1,1)"), ("w", 2, 1, "log", b"log of (2,1)"), ("r", 2, 1, "log", b"log of (2,1)"),
+                 ("r", 1, 1, "log", b"log of (1,1)"), ("read", 1, 1), ("read", 2, 1)]
+        want_val = {(1, 1): w.apply(["lookread", 1, 1]), (2, 1): w.apply(["lookread", 2, 1]), (1, 2): w.apply(["lookread", 1, 2])}
+        for i, st in enumerate(steps):
+            try:
+                if st[0] == "w":
+                    wmeta(*st[1:])
+                elif st[0] == "r":
+                    got = rmeta(st[1], st[2], st[3])
+                    if got != st[4]:
+                        shared = st[3] == "log" and (st[1], st[2]) in ((1, 1), (2, 1)) and got in (b"log of (1,1)", b"log of (2,1)")
+                        fails.append(dict(clause="metadata-read-last-written", cause="stored-with-shared-data-object" if shared else "stored-with-data",
+                                          step=i, call=[st[1], st[2]], key=st[3], got=repr(got), expected=repr(st[4])))
+                else:
+                    got = w.apply(["lookread", st[1], st[2]])
+                    if got != want_val[(st[1], st[2])]:
+                        fails.append(dict(clause="read-result-after-metadata-write", cause="stored-with-data", step=i, call=[st[1], st[2]],
+                                          got=got, expected=want_val[(st[1], st[2])]))
+            except Exception as e:
+                fails.append(dict(clause="metadata-op-raised", cause="stored-with-data", step=i, op=repr(st), error=repr(e)[:200]))
+    finally:
+        w.close()
+    return fails
+
+
 def main(chk, replay=None):
+    if replay is not None and replay.get("with_data"):
+        f = with_data_scenario(replay["config"], None)
+        cl = replay.get("class", {})
+        f = [x for x in f if x["clause"] == cl.get("clause") and x.get("cause") == cl.get("cause")] or f
+        print(json.dumps(dict(still_fails=bool(f), observed=f[:3]), default=str))
+        return 1 if f else 0
     if replay is not None:
         r = sw.run_history(replay["config"], replay["ops"], use_model=False)
         print(json.dumps(dict(still_fails=bool(r["oracle"]), observed=r["oracle"][:3]), default=str))
@@ -89,7 +142,7 @@ def main(chk, replay=None):
                 "argument hashes x ~40 values (+ 8 partition values in every fifth history, dictionary oracle only), run on memory / fs / fs+separate metadata / fs+cache(600B, 2500B, 200kB). "
                 "Distinct = distinct (backend config, op list); non-trivial = has >= 1 memoize and >= 1 forget or re-memoize.")
     chk.assumptions += ["write_metadata is only issued for memoized calls (how the framework uses it)",
-                        "store_with_content_key metadata is outside the op language; list limits are checked against the dictionary (count = min(limit, live), subset of the live entries) but are not in the Lean op language"]
+                        "store_with_content_key metadata is outside the op language (a directed scenario, judged by the dictionary oracle only); list limits are checked against the dictionary (count = min(limit, live), subset of the live entries) but are not in the Lean op language"]
     proof_ok = chk.build_and_audit()
     quick = chk.tier == "quick"
     rng = chk.rng
@@ -122,6 +175,20 @@ def main(chk, replay=None):
                 chk.correspondence_break("store-api", dict(config=cfg, ops=ops[: res["mismatch"][0]["step"] + 1],
                                                            first=res["mismatch"][0]))
 
+    # metadata stored with the data object (directed; the dictionary oracle only)
+    for cfg in sw.CONFIGS:
+        wf = with_data_scenario(cfg, chk.tmpdir())
+        chk.case(["metadata-stored-with-data", cfg], nontrivial=True, sample=dict(kind="metadata stored with the data", config=cfg))
+        chk.count("metadata-with-data-scenarios")
+        seen_cls = set()
+        for f in wf:
+            key = (f["clause"], f.get("cause"))
+            if key in seen_cls:
+                continue
+            seen_cls.add(key)
+            chk.violation({"what": "metadata stored with the data, backend %s: %s (%s)" % (cfg, f["clause"], f.get("cause")),
+                           "class": {"clause": f["clause"], "cause": f.get("cause"), "backend": cfg["kind"]}, "with_data": True, "config": cfg,
+                           "observed": [x for x in wf if (x["clause"], x.get("cause")) == key][:2]})
     for ops in CORPUS:
         run_all(ops, "corpus")
     for i in range(nhist):
